@@ -70,6 +70,12 @@ pub fn special_patterns() -> Vec<String> {
     for n in [99usize, 100, 101] {
         out.push(format!("\\w{}\\w", "a".repeat(n)).replace("\\\\", "\\"));
     }
+    // class ranges inside one three- or four-byte lead byte that cross a
+    // 64-codepoint block (a middle byte of the encoding varies too), and two
+    // two-byte ones for comparison
+    for g in ["[ぁ-ん]", "[☀-♿]", "[😀-🙏]", "[Ⴀ-Ⴥ]", "[α-ω]", "[а-я]", "x[ぁ-ん]y", "[Ⴀ-Ⴥ]+"] {
+        out.push(g.to_string());
+    }
     // a group / repetition / alternation whose body is a concatenation of
     // literal-free elements, between two literals (the literal extractor must
     // not glue the literals together across it)
